@@ -26,3 +26,21 @@ Theorem C11_every_duplicate_reported : forall i n a b c,
   map m_name (i_members i) = a ++ n :: b ++ n :: c -> In n (map dup_name (dups i)).
 Proof. exact every_duplicate_reported. Qed.
 Print Assumptions C11_every_duplicate_reported.
+
+(* the language: every text that renders a definition according to the grammar (arbitrary legal
+   trivia in every position, every line-end form) is accepted and parsed to exactly that
+   definition: name, member kinds and names in order, field names, types, trimmed docs *)
+From VL Require Import TypeProofs MemberProofs.
+Theorem C11_rendered_definition_is_parsed : forall i s, RIdl i s -> parse_idl s = POk i.
+Proof. exact idl_parse. Qed.
+Print Assumptions C11_rendered_definition_is_parsed.
+
+Theorem C11_rendered_type_is_parsed : forall t s, RType t s -> forall r f, follow r ->
+  (length (s ++ r) < f)%nat -> p_type f (s ++ r) = POk (t, r).
+Proof. exact render_parse_type. Qed.
+Print Assumptions C11_rendered_type_is_parsed.
+
+Theorem C11_rendered_member_is_parsed : forall m s, RMember m s -> forall r f, (length (s ++ r) < f)%nat ->
+  p_member f (s ++ r) = POk (m, r).
+Proof. exact member_parse. Qed.
+Print Assumptions C11_rendered_member_is_parsed.
